@@ -121,6 +121,7 @@ fn fixed_cases() -> Vec<PriceCase> {
                 Posting { account: acct, amount: Some(l(m, s, c)), cost: None, lot: None, balance: None },
                 Posting { account: EQUITY, amount: None, cost: None, lot: None, balance: None },
             ],
+            head: Head::default(),
         })
     };
     let quote = |d: i32, x: usize, m: i64, s: u32, y: usize| {
@@ -131,20 +132,21 @@ fn fixed_cases() -> Vec<PriceCase> {
                 Posting { account: EQUITY, amount: Some(l(0, 0, x)), cost: Some(Exch::Rate(l(m, s, y))), lot: None, balance: None },
                 Posting { account: EQUITY, amount: None, cost: None, lot: None, balance: None },
             ],
+            head: Head::default(),
         })
     };
     vec![
         // double rounding of a date-ranged up-to-date report (fixed in /repo): 0.4 + 0.4 of a
         // commodity with no decimal places, at 100
         PriceCase {
-            entries: vec![Entry::Format(0, 0), Entry::Format(4, 2), quote(1, 0, 100, 0, 4), hold(2, 0, 4, 1, 0), hold(3, 0, 4, 1, 0)],
+            entries: vec![Entry::Format(0, 0, FmtLit::default()), Entry::Format(4, 2, FmtLit::default()), quote(1, 0, 100, 0, 4), hold(2, 0, 4, 1, 0), hold(3, 0, 4, 1, 0)],
             db: vec![],
             comms: vec![0, 4],
             exact: true,
         },
         // half-unit results in the target commodity (banker's rounding), a missing rate for EUR
         PriceCase {
-            entries: vec![Entry::Format(4, 0), quote(1, 0, 5, 1, 4), hold(2, 0, 1, 0, 0), hold(2, 1, 3, 0, 0), hold(3, 1, 5, 0, 2), hold(4, 3, 25, 1, 4)],
+            entries: vec![Entry::Format(4, 0, FmtLit::default()), quote(1, 0, 5, 1, 4), hold(2, 0, 1, 0, 0), hold(2, 1, 3, 0, 0), hold(3, 1, 5, 0, 2), hold(4, 3, 25, 1, 4)],
             db: vec![PLine { date: 3, target: 0, m: 25, scale: 1, comm: 4 }],
             comms: vec![0, 2, 4],
             exact: true,
@@ -333,6 +335,7 @@ fn run_case(sh: &mut Shards, st: &mut Stats, scratch: &cli::Scratch, r: &mut Rng
     }
     let nfmt = case.entries.iter().filter(|e| matches!(e, Entry::Format(..))).count();
     st.add("shape:format_decl", nfmt as u64);
+    shape_text_stats(st, &shape(&case.entries));
     let mut windows: Vec<(i32, i32, bool)> = Vec::new();
     for e in &case.entries {
         if let Entry::Txn(t) = e {
@@ -439,7 +442,8 @@ pub fn run(o: &Opts) {
     let mut st = Stats::new();
     let header = "From Coq Require Import List NArith ZArith QArith Qcanon.\nFrom Okv Require Import Base.Maps Base.Dec Model.Amount Model.Book Model.PriceDb Model.Convert Run.LedgerCase Run.PriceCase Run.Classify_C10.\nImport ListNotations.\nOpen Scope N_scope.";
     let mut sh = Shards::new(&o.out, o.shards, header);
-    st.rule = "accepted multi-commodity ledgers from the C09 generator in its rich form (1-8 prices from costs, lot prices, implied exchanges and a price-DB file; 1-4 extra holdings in several accounts and commodities with values that need rounding; format declarations with 0/2/3 places; about 4 in 9 transactions written DATE=EFFECTIVE with the effective date later, earlier or equal, and up-to-date reports dated between the two), every known commodity as target with 4-5 queries each: historical / up-to-date at a date around the price dates, with no range, start only, end only or both; observed through Ledger::balance(conversion: Some(..)) and (a sample) `okane balance -X T [--historical] --now D [--start --end]` in-process; includes targets for which a needed rate is missing. One evaluation = one query; non-trivial = at least 2 commodities held and at least one conversion performed or refused; distinct by (ledger text, price-DB text, query)".into();
+    st.rule = "accepted multi-commodity ledgers from the C09 generator in its rich form (1-8 prices from costs, lot prices, implied exchanges and a price-DB file; 1-4 extra holdings in several accounts and commodities with values that need rounding; format declarations with 0-6 places; about 4 in 9 transactions written DATE=EFFECTIVE with the effective date later, earlier or equal, and up-to-date reports dated between the two), every known commodity as target with 4-5 queries each: historical / up-to-date at a date around the price dates, with no range, start only, end only or both; observed through Ledger::balance(conversion: Some(..)) and (a sample) `okane balance -X T [--historical] --now D [--start --end]` in-process; includes targets for which a needed rate is missing. One evaluation = one query; non-trivial = at least 2 commodities held and at least one conversion performed or refused; distinct by (ledger text, price-DB text, query)".into();
+    st.rule = format!("{}; {}", st.rule, TEXT_SHAPES_RULE);
     st.assumptions.push("exact stream: rates and priced quantities are products of powers of 2 and 5 (exact Decimal division), reports compared exactly; arbitrary-rate stream compared with relative tolerance 1e-18".into());
     st.assumptions.push("where an amount to be converted has several optimal chains with different rates (genuine tie) only success/failure and the result commodity are checked".into());
     st.assumptions.push("historical conversion needs a rate for every commodity entry of every posting in range, zero-valued entries included (Amount keeps `0 X` entries)".into());
@@ -450,8 +454,19 @@ pub fn run(o: &Opts) {
         run_case(&mut sh, &mut st, &scratch, &mut r, &c, &q, "corpus", 8);
     }
     if !replay {
+        // the fixed ledgers need their declared precisions: once in every way of writing the
+        // sample number of the `format` line (and in as many header shapes)
         for c in fixed_cases() {
-            run_case(&mut sh, &mut st, &scratch, &mut r, &c, &serde_json::Value::Null, "fixed", 20);
+            for n in 0..FMT_LITS.len() {
+                let mut c = c.clone();
+                vary_shapes_nth(&mut c.entries, n);
+                for e in c.entries.iter_mut() {
+                    if let Entry::Format(_, _, f) = e {
+                        *f = FmtLit::nth(n);
+                    }
+                }
+                run_case(&mut sh, &mut st, &scratch, &mut r, &c, &serde_json::Value::Null, "fixed", if n == 0 { 20 } else { 6 });
+            }
         }
         let n = if o.thorough { 5000 } else { 450 };
         for k in 0..n {
